@@ -1,7 +1,148 @@
-//! C01 (to be filled in)
+//! C01 — exit 0 implies every copied regular file is byte-identical to its source
+
 use super::*;
-pub fn run(_ctx: &Ctx) -> Report {
-    let mut r = Report::new("model_checking", "not implemented");
-    r.machinery_errors.push("C01 not implemented yet".into());
-    r
+use crate::explore::Judge;
+use crate::scen::{Content, Entry, Kind};
+
+pub fn judge(w: &Worker, scen: &Scenario, ex: &Exec) -> Judgement {
+    let exp = model::expect(scen);
+    let v = judge_exit0_tree(w, scen, ex, &exp, Level::Content);
+    simple_judge(v, ex, exit0(ex) && exp.nfiles > 0)
+}
+
+fn prior(kind: usize, len: u64) -> Option<Content> {
+    match kind {
+        0 => None,
+        1 => Some(Content::Gen { len: len / 2, seed: 900 }),
+        2 => Some(Content::Gen { len: len * 2 + 5, seed: 901 }),
+        _ => Some(Content::Gen { len, seed: 902 }),
+    }
+}
+
+pub fn dense(_quick: bool) -> Vec<Scenario> {
+    let mut v = vec![];
+    let bs: Vec<u64> = vec![1, 2, 3, 7, 4096];
+    for &b in &bs {
+        let mut sizes: Vec<u64> = vec![0, 1, b.saturating_sub(1), b, b + 1, 2 * b - 1, 2 * b, 2 * b + 1, 3 * b + 1];
+        sizes.sort();
+        sizes.dedup();
+        for &n in &sizes {
+            for pk in 0..4 {
+                for d in drivers() {
+                    for w in [1u32, 2, 3] {
+                        for rl in ["auto", "never"] {
+                            for prog in [false, true] {
+                                let mut tree = vec![Entry::new("f", Kind::File(Content::Gen { len: n, seed: n + b }))];
+                                if let Some(c) = prior(pk, n) {
+                                    tree.push(Entry::new("g", Kind::File(c)).mode(0o600));
+                                }
+                                let ws = w.to_string();
+                                let bstr = b.to_string();
+                                let mut args = vec!["--driver", d, "-w", &ws, "--reflink", rl];
+                                if prog {
+                                    args.push("--no-progress");
+                                } else {
+                                    args.extend_from_slice(&["--block-size", &bstr]);
+                                }
+                                args.extend_from_slice(&["f", "g"]);
+                                v.push(Scenario::new(&format!("dense-B{}-n{}-prior{}-{}-w{}-{}-{}", b, n, pk, d, w, rl, if prog { "noprog" } else { "bs" }), tree, &args));
+                            }
+                        }
+                    }
+                }
+            }
+        }
+    }
+    v
+}
+
+pub fn all_layouts(maxlen: usize) -> Vec<Vec<bool>> {
+    let mut v = vec![];
+    for l in 1..=maxlen {
+        for m in 0..(1u32 << l) {
+            v.push((0..l).map(|i| (m >> i) & 1 == 1).collect());
+        }
+    }
+    v
+}
+
+pub fn layouts(quick: bool, unit: u64, maxlen: usize) -> Vec<Scenario> {
+    let mut v = vec![];
+    let bsz: Vec<(&str, Vec<&str>)> = vec![("4096", vec!["--block-size", "4096"]), ("6000", vec!["--block-size", "6000"]), ("8192", vec!["--block-size", "8192"]), ("1MiB", vec!["--block-size", "1MB"]), ("MAX", vec!["--no-progress"])];
+    for (li, units) in all_layouts(maxlen).into_iter().enumerate() {
+        for tail in [0u64, 1, 4095] {
+            for (bn, bflag) in &bsz {
+                let _ = quick;
+                for d in drivers() {
+                    for pk in [0, 2] {
+                        let c = Content::Layout { unit, units: units.clone(), tail, seed: li as u64 };
+                        let len = c.len();
+                        let mut tree = vec![Entry::new("f", Kind::File(c))];
+                        if pk == 2 {
+                            tree.push(Entry::new("g", Kind::File(Content::Gen { len: len + 4096, seed: 77 })));
+                        }
+                        let mut args = vec!["--driver", d, "-w", "2"];
+                        args.extend_from_slice(bflag);
+                        args.extend_from_slice(&["f", "g"]);
+                        let name: String = units.iter().map(|&b| if b { 'D' } else { 'H' }).collect();
+                        v.push(Scenario::new(&format!("layout-{}+{}-u{}-B{}-{}-prior{}", name, tail, unit, bn, d, pk), tree, &args));
+                    }
+                }
+            }
+        }
+    }
+    v
+}
+
+pub fn trees() -> Vec<Scenario> {
+    let mut v = vec![];
+    for d in drivers() {
+        for w in ["1", "2", "4"] {
+            for b in ["1", "5", "4096"] {
+                let tree = vec![
+                    Entry::dir("src"),
+                    Entry::gen("src/a", 11, 1),
+                    Entry::new("src/s", Kind::File(Content::Layout { unit: 4096, units: vec![true, false, true], tail: 3, seed: 2 })),
+                    Entry::dir("src/d"),
+                    Entry::gen("src/d/e", 4097, 3),
+                    Entry::file("src/d/z", ""),
+                    Entry::dir("dst"),
+                    Entry::gen("dst/a", 30, 4),
+                ];
+                v.push(Scenario::new(&format!("tree-{}-w{}-B{}", d, w, b), tree, &["-r", "-T", "--driver", d, "-w", w, "--block-size", b, "src", "dst"]));
+            }
+        }
+    }
+    v
+}
+
+pub fn run(ctx: &Ctx) -> Report {
+    let mut rep = Report::new(
+        "model_checking",
+        "bounded-exhaustive scenario enumeration: block sizes {1,2,3,7,4096} x sizes {0,1,B-1,B,B+1,2B-1,2B,2B+1,3B+1} x prior destination {absent, shorter, longer, same length} x drivers x workers x reflink {auto,never} x {--block-size B, --no-progress}; every {Data,Hole} string up to a length bound in 4 KiB units x tails {0,1,4095} x block sizes {4096,6000,8192,1MiB,MAX}; small trees; each scenario executed by the real binary under the supervisor's deterministic base schedules P0 and P1 and compared with the reference model; non-trivial = exited 0 and copied at least one regular file, counted per distinct trace",
+    );
+    let j: Judge = &judge;
+    let q = ctx.quick();
+    let st = scen_batch(ctx, dense(q), &[Policy::P0, Policy::P1], j);
+    rep.part("dense sizes x block sizes x prior destinations", st, serde_json::json!({}));
+    let st = scen_batch(ctx, layouts(q, 4096, if q { 5 } else { 7 }), &[Policy::P0], j);
+    rep.part("data/hole layouts, 4 KiB units", st, serde_json::json!({"max_units": if q { 5 } else { 7 }}));
+    let st = scen_batch(ctx, trees(), &[Policy::P0, Policy::P1], j);
+    rep.part("small trees", st, serde_json::json!({}));
+    if !q {
+        let st = scen_batch(ctx, layouts(false, 65536, 5), &[Policy::P1], j);
+        rep.part("data/hole layouts, 64 KiB units", st, serde_json::json!({"max_units": 5}));
+        // one real request above the kernel's per-call limit (2 GiB - 4 KiB)
+        let mut big = vec![];
+        for d in drivers() {
+            let tree = vec![Entry::new("f", Kind::File(Content::Layout { unit: 1 << 30, units: vec![true, true], tail: 12345, seed: 5 }))];
+            big.push(Scenario::new(&format!("bigger-than-one-kernel-request-{}", d), tree, &["--driver", d, "--no-progress", "f", "g"]));
+        }
+        let save = ctx.pool.n;
+        let _ = save;
+        let st = scen_batch(ctx, big, &[Policy::P0], j);
+        rep.part("one file larger than a single copy_file_range request (2 GiB + 12345 bytes, --no-progress)", st, serde_json::json!({}));
+    }
+    rep.assumptions = vec!["ext4 sandbox (FIEMAP, SEEK_HOLE available); deterministic non-zero content so that a hole copied as data or data left as zeros shows up as a byte difference".into()];
+    rep
 }
